@@ -45,7 +45,7 @@ def gen_groups(rng, small=False):
         elif r < 0.55: sf = ('dt', XSD + rng.choice(['integer', 'date', 'string']))
         elif r < 0.7: sf = ('dt', PFX['dtp'] + 'temp')
         elif r < 0.85: sf = ('dt', 'http://other.org/dt@x')
-        else: return ('N', str(rng.randint(0, 99)))          # untyped integer
+        else: return ('N', rng.choice(['', '', '-', '+']) + str(rng.randint(0, 99)))          # untyped integer: [+-]?[0-9]+
         return ('L', content, sf)
     groups = []
     for _ in range(rng.randint(1, 2 if small else 4)):
@@ -302,5 +302,5 @@ def run(ctx):
     return base.std_result(ctx, [d[0] for d in docs], viol, dis, base.known_lines(kf, hit), stats, nontriv, [],
                            "documents rendered from abstract statement groups (';' and ',' abbreviations, 'a' vs rdf:type, prefixed / <absolute> / "
                            "<relative-to-@base> IRIs, blank nodes, literals with escapes and '#', ';', ',', '.' inside, language tags, datatypes as <IRI> / "
-                           "xsd: / custom prefix, untyped integers) by a layout generator (blanks, tabs, line breaks at any token boundary, trailing and "
+                           "xsd: / custom prefix, untyped integers with and without sign) by a layout generator (blanks, tabs, line breaks at any token boundary, trailing and "
                            "whole-line comments); every line-break placement for documents of <= %d tokens; %d documents outside the dialect" % (9 if ctx.tier == "quick" else 12, len(OUTSIDE)), DEPS)
